@@ -143,7 +143,9 @@ func c01Late(c *fw.Ctx, kind string, m *rec.Rec) bool {
 	var l0, l1, late int
 	var err, berr error
 	p, pv, st := fw.Recover(func() {
-		msg, n, e := lib.BuildMessageLate(m)
+		// every other case also completes NAT actions after they were put into their conntrack action (growth two
+		// levels down): whatever the conntrack action then encodes, the frame's length must describe the bytes produced
+		msg, n, e := lib.BuildMessageLate(m, c.Index%2 == 1, c.Index%4 >= 2)
 		late, berr = n, e
 		if e != nil || n == 0 {
 			return
@@ -152,6 +154,13 @@ func c01Late(c *fw.Ctx, kind string, m *rec.Rec) bool {
 		bytes, err = msg.MarshalBinary()
 		l1 = int(msg.Len())
 	})
+	if p && c.Index%2 == 1 {
+		// completing a NAT action after it went into its conntrack action is not supported by the pinned API (the
+		// conntrack action keeps the length it computed at AddAction: it truncates the NAT action or panics when
+		// another action follows). Not judged; where the encoder does return, framing is (below).
+		c.Count("late_growth_two_levels_down_encoder_panics_not_judged", 1)
+		return true
+	}
 	if p {
 		c.Violation(kind, "panic", "late-growth:"+fw.LibFrame(st), pv+"\n"+fw.TrimStack(st))
 		return false
